@@ -243,6 +243,9 @@ class Check:
         ev = dict(property_id=self.pid, tier=self.tier, seed=seed(), level="model_checking", coverage=cov,
                   assumptions=self.assumptions, wall_s=round(time.time() - self.t0, 1), violations=len(self.violations))
         json.dump(ev, open(os.path.join(VERIF, "evidence", self.pid + ".json"), "w"), indent=1, ensure_ascii=False)
+        if self.tier == "thorough":      # kept next to the per-change evidence, which the next quick run overwrites
+            os.makedirs(os.path.join(VERIF, "evidence", "thorough"), exist_ok=True)
+            json.dump(ev, open(os.path.join(VERIF, "evidence", "thorough", self.pid + ".json"), "w"), indent=1, ensure_ascii=False)
         return rc
 
 
